@@ -64,7 +64,10 @@ func (e *establishLinkHandler) HandleValueAdded(inst directive.Instance, val dir
 		go func() {
 			verifGate("acquire")
 			e.mtx.Lock()
-			e.rigidRef = e.di.AddReference(nil, false)
+			// re-check: the links may be gone or another call may hold the reference by now
+			if e.valCount != 0 && e.rigidRef == nil {
+				e.rigidRef = e.di.AddReference(nil, false)
+			}
 			e.mtx.Unlock()
 		}()
 	}
